@@ -5,3 +5,6 @@ export CARGO_NET_OFFLINE=true
 cd /verif/engine
 cargo build --offline --release
 CARGO_TARGET_DIR=/verif/engine/target-dbg cargo build --offline --profile reldbg
+for be in ibig dashu malachite num_bigint; do
+  CARGO_TARGET_DIR=/verif/engine/target-be-$be cargo build --offline --release --no-default-features --features "mv_rayon be_$be"
+done
